@@ -28,7 +28,8 @@ EXPECTED_PROBES = ['unresponsive_seen', 'close_timeout_fired', 'ping_rate_zero',
                    'graceful_end', 'jitter', 'data_wakeups', 'ping_windows_checked',
                    'trickled_frame', 'auto_pong_off',
                    'timeout_without_auto_ping',
-                   'close_called_again_while_closing']
+                   'close_called_again_while_closing',
+                   'read_filled_buffer_exactly']
 
 EPS = 2e-5      # float rounding at a 1.7e9 epoch (2^-22 s) with margin
 
@@ -86,6 +87,10 @@ def make_case(family, i, rng, tier):
         case['trickle'] = {'at': round(rng.uniform(0, horizon * 0.2), 3),
                            'every': p * rng.choice([0.5, 0.3, 0.9]),
                            'bytes': rng.choice([30, 60])}
+    if rng.random() < 0.15 and not case.get('trickle'):
+        # a frame of exactly 65536 bytes arriving while nothing else is
+        # buffered: one read fills the receive buffer to the last byte
+        case['full_read_at'] = round(rng.uniform(0, horizon * 0.5), 3)
     # handshake delay
     case['reply_delay'] = rng.choice([0, 0, int(p * 1.5e6), 700000])
     # closing
@@ -125,6 +130,10 @@ def build(case):
         timeline = [x for x in timeline if len(x[1]) == 1 or
                     not (tr_['at'] <= x[0] <= tr_['at'] + len(blob) *
                          tr_['every'])]
+    if case.get('full_read_at') is not None:
+        fr = peer.enc_frame(2, b'F' * (65536 - 4))
+        assert len(fr) == 65536
+        timeline.append((case['full_read_at'], fr))
     if case.get('close_mode') == 'server_close':
         timeline.append((case['server_close_at'],
                          peer.enc_frame(8, peer.enc_close_payload(1000, 'srv'))))
@@ -222,6 +231,8 @@ def execute(case):
         res.stats['probe:jitter'] += 1
     if t and not r:
         res.stats['probe:timeout_without_auto_ping'] += 1
+    if case.get('full_read_at') is not None and 'binary' in names:
+        res.stats['probe:read_filled_buffer_exactly'] += 1
     if sum(1 for cc in tr.calls if cc.op == 'close_if_closing' and
            cc.outcome == 'ok') >= 1:
         res.stats['probe:close_called_again_while_closing'] += 1
